@@ -282,6 +282,12 @@ func c20Send(c *sendCtx) {
 		return
 	}
 	// protected: nothing but the payload list and header bookkeeping changes
+	for i := range c.orig {
+		if i >= len(c.callerList) || c.callerList[i] != c.orig[i] {
+			w.violate("protect_altered_callers_payload_list", "list", "EncodeEncrypt wrote into the payload list the caller built the message from (element %d of the caller's slice is no longer the payload it put there)", i)
+			return
+		}
+	}
 	if d := payloadsDiff(before.Payloads, extractPayloads(c.orig)); d != "" {
 		w.violate("protect_altered_payloads", d, "EncodeEncrypt altered an original payload object at %s", d)
 		return
